@@ -3,7 +3,8 @@ check("C13", "exploration",
       "every failing/linted run of the shared worker run: code in the table, file named, span inside the file and starting on the reported "
       "line (characters), injected faults covered by a diagnostic of their code, build_report+write succeeding in all four colour/charset "
       "configurations (Diagnostics.tla, Trace_Diagnostics.tla); (3) determinism: inputs compiled 3x/8x in fresh processes must give the same "
-      "verdict, diagnostics and IR text (Trace_Determinism.tla).",
+      "verdict, diagnostics and IR text (Trace_Determinism.tla); (4) syntax errors: for every token sequence the recogniser SyntaxRules.tla "
+      "calls invalid(lo, hi), the span of the first parse diagnostic covers a token of the window lo..hi.",
       "'Covers the offending text' is decided only where the offending text is known (injected lexical faults, E402 specials); elsewhere "
       "well-formedness of the location. The rendering observation (write returned Ok) is made by the harness. Line starts are computed by "
       "the harness, not by the lexer under test. `col` and clean rendering (no ESC without colour, ASCII frames) are notes only here.",
